@@ -143,9 +143,9 @@ type c12Log struct {
 	leafHashes []verifmc.Hash
 	root       verifmc.Hash
 	objs       map[string][]byte
-	tiles      []string // tile paths in a fixed order (data first, then hash)
-	evil       bool // special log (misplaced leaf or archival leaf): no stale-tile tampering
-	archival   bool // holds an RFC 6962 archival leaf
+	tiles      []string      // tile paths in a fixed order (data first, then hash)
+	evil       bool          // special log (misplaced leaf or archival leaf): no stale-tile tampering
+	archival   bool          // holds an RFC 6962 archival leaf
 	ends       map[int][]int // data tile number -> end offset of each entry
 	// client under test, bound to tr
 	tr          *c12Transport
@@ -251,10 +251,15 @@ func (w *c12World) log(n int, evil string) *c12Log {
 		l.leafHashes[p] = l.leafHashes[q]
 		l.evil = true
 	} else if strings.HasPrefix(evil, "/arch") {
-		var p int
-		fmt.Sscanf(evil, "/arch%d", &p)
-		l.entries[p].Index = -1
-		l.leafHashes[p] = verifmc.LeafHash(c12MerkleLeaf(&l.entries[p]))
+		for _, f := range strings.Split(strings.TrimPrefix(evil, "/arch"), "+") { // "/archP+Q+..."
+			p := -1
+			fmt.Sscanf(f, "%d", &p)
+			if p < 0 || p >= n {
+				panic(verifmc.EngineError{Msg: "c12: bad log suffix " + evil})
+			}
+			l.entries[p].Index = -1
+			l.leafHashes[p] = verifmc.LeafHash(c12MerkleLeaf(&l.entries[p]))
+		}
 		l.evil, l.archival = true, true
 	} else if evil != "" {
 		panic(verifmc.EngineError{Msg: "c12: bad log suffix " + evil})
@@ -279,7 +284,15 @@ func (w *c12World) log(n int, evil string) *c12Log {
 		l.objs["issuer/"+hex.EncodeToString(w.issuerFP[j][:])] = der
 	}
 	l.tr = &c12Transport{base: l.objs}
-	for _, allow := range []bool{false, true} {
+	l.client, l.clientAllow = l.newClient(false), l.newClient(true)
+	w.logs[id] = l
+	return l
+}
+
+// newClient builds a fresh client on the log's transport.
+func (l *c12Log) newClient(allow bool) *Client {
+	n, w := l.n, l.w
+	{
 		c, err := NewClient(&ClientConfig{
 			MonitoringPrefix:          c12Prefix + "log" + fmt.Sprint(n) + "/",
 			PublicKey:                 &w.key.priv.PublicKey,
@@ -291,14 +304,8 @@ func (w *c12World) log(n int, evil string) *c12Log {
 		if err != nil {
 			panic(verifmc.EngineError{Msg: "c12: NewClient: " + err.Error()})
 		}
-		if allow {
-			l.clientAllow = c
-		} else {
-			l.client = c
-		}
+		return c
 	}
-	w.logs[id] = l
-	return l
 }
 
 // ---------------------------------------------------------------------------
